@@ -132,11 +132,19 @@ func (r *Run) lastAgreed(id channel.ID, parties []int) *channel.State {
 	return best
 }
 
-// entitlement of channel participant idx per asset in the channel tree whose root state is s
+// entitlement of channel participant idx per asset in the channel tree whose root state is s: its balance
+// in s plus, recursively, its entitlement in the last agreed state of every sub-channel locked in s
 func (r *Run) entitlement(s *channel.State, idx int, parties []int) []*big.Int {
+	return r.entitlementDepth(s, idx, parties, 0)
+}
+
+func (r *Run) entitlementDepth(s *channel.State, idx int, parties []int, depth int) []*big.Int {
 	out := make([]*big.Int, len(s.Balances))
 	for a := range s.Balances {
 		out[a] = new(big.Int).Set(s.Balances[a][idx])
+	}
+	if depth > 4 {
+		return out
 	}
 	for _, l := range s.Locked {
 		sub := r.lastAgreed(l.ID, parties)
@@ -149,11 +157,28 @@ func (r *Run) entitlement(s *channel.State, idx int, parties []int) []*big.Int {
 				j = k
 			}
 		}
-		for a := range sub.Balances {
-			out[a].Add(out[a], sub.Balances[a][j])
+		for a, x := range r.entitlementDepth(sub, j, parties, depth+1) {
+			out[a].Add(out[a], x)
 		}
 	}
 	return out
+}
+
+// LedgerCaseTerm renders the ledger calls of the run as a case of Run/Compare_Ledger.v: the observed results
+// and the final ledger state against Model/Ledger.v (used for trees deeper than the LTS of Model/Settle.v).
+func (r *Run) LedgerCaseTerm() string {
+	tb := sl.NewTables()
+	tb.P(r.Root)
+	var ops, outs []string
+	for _, en := range r.Env.Log.E {
+		if en.Kind == LCall {
+			ops = append(ops, tb.Op(en.Call))
+			outs = append(outs, tb.Out(en.Call))
+		}
+	}
+	var snap string
+	r.Env.L.Locked(func(c *sl.Core) { snap = tb.Snapshot(c) })
+	return fmt.Sprintf("(mkLCase %s %s %s %s %s %s)", tb.ParamsTable(), tb.StateTable(), r.InitAcc, hx.List(ops), hx.List(outs), snap)
 }
 
 // Oracle checks the run against the texts of C03 (both honest) or C04 (one honest party).
